@@ -152,25 +152,201 @@ package gen
 //@ loop read*#*
 //@   invariant sameOrFresh2(vals, old(vals)) && sameOrFresh2(defs, old(defs)) && sameOrFresh2(reps, old(reps))
 
-// ---- statistics accumulators
-//@ template T in int32 int64 uint32 uint64 float32 float64
+// ---- statistics accumulators (C12)
+//
+// Soundness of min/max is stated per call: the value(s) just added are inside
+// [min,max] and the interval only grows; by induction over the add calls of a
+// page every non-NaN value of the page is inside it. The null count is exact:
+// it grows by the number of definition levels below the column's maximum.
+
+// little-endian value of the first 4 / 8 bytes of a slice
+//@ pred le32(b) := b[0] + 256*b[1] + 65536*b[2] + 16777216*b[3]
+//@ pred le64(b) := b[0] + 256*b[1] + 65536*b[2] + 16777216*b[3] + 4294967296*b[4] + 1099511627776*b[5] + 281474976710656*b[6] + 72057594037927936*b[7]
+// bit pattern a PLAIN value is stored as
+//@ pred bits_int32(v) := ite(v >= 0, v, v + 4294967296)
+//@ pred bits_uint32(v) := v
+//@ pred bits_float32(v) := f32bits(v)
+//@ pred bits_int64(v) := ite(v >= 0, v, v + 18446744073709551616)
+//@ pred bits_uint64(v) := v
+//@ pred bits_float64(v) := f64bits(v)
+
+//@ template T in int32:Int32:4:le32 int64:Int64:8:le64 uint32:Uint32:4:le32 uint64:Uint64:8:le64 float32:Float32:4:le32 float64:Float64:8:le64
+//@ pred okStats_{T}(s) := s != nil && !isNaN(s.min) && !isNaN(s.max)
+
+//@ func new{T1}stats
+//@   modifies nothing
+//@   ensures[C12] okStats_{T}(res) && freshsince(res)
+
 //@ func (*{T}stats).add
+//@   requires okStats_{T}(i)
 //@   modifies i
+//@   ensures[C12] okStats_{T}(i)
+//@   ensures[C12] !isNaN(val) ==> i.min <= val && val <= i.max
+//@   ensures[C12] i.min <= old(i.min) && i.max >= old(i.max)
+
+//@ func (*{T}stats).bytes
+//@   modifies nothing
+//@   ensures[C12] #res == {T2} && {T3}(res) == bits_{T}(v) && freshsince(res)
+//@ func (*{T}stats).Min
+//@   requires f != nil
+//@   modifies nothing
+//@   ensures[C12] #res == {T2} && {T3}(res) == bits_{T}(f.min)
+//@ func (*{T}stats).Max
+//@   requires f != nil
+//@   modifies nothing
+//@   ensures[C12] #res == {T2} && {T3}(res) == bits_{T}(f.max)
+//@ func (*{T}stats).NullCount
+//@   modifies nothing
+//@   ensures[C12] res == nil
+//@ func (*{T}stats).DistinctCount
+//@   modifies nothing
+//@   ensures res == nil
+
+//@ pred okOptStats_{T}(s) := s != nil && !isNaN(s.min) && !isNaN(s.max) && s.nils >= 0 && s.nonNils >= 0
+
+//@ func new{T}optionalStats
+//@   modifies nothing
+//@   ensures[C12] okOptStats_{T}(res) && freshsince(res) && res.nils == 0 && res.nonNils == 0 && res.maxDef == d
+
 //@ func (*{T}optionalStats).add
+//@   requires okOptStats_{T}(f) && #vals >= #defs - cntLess(defs, #defs, f.maxDef)
 //@   modifies f
+//@   ensures[C12] okOptStats_{T}(f) && f.maxDef == old(f.maxDef)
+//@   ensures[C12] f.nils == old(f.nils) + cntLess(defs, #defs, f.maxDef)
+//@   ensures[C12] f.nonNils == old(f.nonNils) + #defs - cntLess(defs, #defs, f.maxDef)
+//@   ensures[C12] forall j in 0..#defs - cntLess(defs, #defs, f.maxDef): !isNaN(vals[j]) ==> f.min <= vals[j] && vals[j] <= f.max
+//@   ensures[C12] f.min <= old(f.min) && f.max >= old(f.max)
 //@ loop (*{T}optionalStats).add#1
-//@   invariant true
+//@   invariant[C12] okOptStats_{T}(f) && f.maxDef == old(f.maxDef) && 0 <= rangeindex + 1 && rangeindex + 1 <= #defs
+//@   invariant[C12] f.nils == old(f.nils) + cntLess(defs, rangeindex + 1, f.maxDef)
+//@   invariant[C12] i == rangeindex + 1 - cntLess(defs, rangeindex + 1, f.maxDef)
+//@   invariant[C12] f.nonNils == old(f.nonNils) + i
+//@   invariant[C12] forall j in 0..i: !isNaN(vals[j]) ==> f.min <= vals[j] && vals[j] <= f.max
+//@   invariant[C12] f.min <= old(f.min) && f.max >= old(f.max)
+
+//@ func (*{T}optionalStats).bytes
+//@   modifies nothing
+//@   ensures[C12] #res == {T2} && {T3}(res) == bits_{T}(v) && freshsince(res)
+//@ func (*{T}optionalStats).Min
+//@   requires f != nil
+//@   modifies nothing
+//@   ensures[C12] f.nonNils == 0 ==> ref(res) == 0 && #res == 0
+//@   ensures[C12] f.nonNils != 0 ==> #res == {T2} && {T3}(res) == bits_{T}(f.min)
+//@ func (*{T}optionalStats).Max
+//@   requires f != nil
+//@   modifies nothing
+//@   ensures[C12] f.nonNils == 0 ==> ref(res) == 0 && #res == 0
+//@   ensures[C12] f.nonNils != 0 ==> #res == {T2} && {T3}(res) == bits_{T}(f.max)
+//@ func (*{T}optionalStats).NullCount
+//@   requires f != nil
+//@   modifies nothing
+//@   ensures[C12] res != nil && *res == f.nils
+//@ func (*{T}optionalStats).DistinctCount
+//@   modifies nothing
+//@   ensures res == nil
 //@ end template
+
+// strings: bytewise order; "has" (ghost) records that a value was added
+//@ ghost field stringStats.has bool
+//@ ghost field stringOptionalStats.has bool
+
+//@ func newStringStats
+//@   modifies nothing
+//@   ensures[C12] res != nil && freshsince(res) && !res.has
 //@ func (*stringStats).add
+//@   requires s != nil
 //@   modifies s
+//@   ghost-entry s.has := true
+//@   ensures[C12] s.min <= val && val <= s.max
+//@   ensures[C12] old(s.has) ==> s.min <= old(s.min) && s.max >= old(s.max)
+//@ func (*stringStats).Min
+//@   requires s != nil
+//@   modifies nothing
+//@   ensures[C12] !s.has ==> ref(res) == 0
+//@   ensures[C12] s.has ==> ref(res) != 0 && #res == #s.min && HA(res) == bytesOf(s.min) && off(res) == 0
+//@ func (*stringStats).Max
+//@   requires s != nil
+//@   modifies nothing
+//@   ensures[C12] !s.has ==> ref(res) == 0
+//@   ensures[C12] s.has ==> ref(res) != 0 && #res == #s.max && HA(res) == bytesOf(s.max) && off(res) == 0
+//@ func (*stringStats).NullCount
+//@   modifies nothing
+//@   ensures[C12] res == nil
+//@ func (*stringStats).DistinctCount
+//@   modifies nothing
+//@   ensures res == nil
+
+//@ func newStringOptionalStats
+//@   modifies nothing
+//@   ensures[C12] res != nil && freshsince(res) && !res.has && res.nils == 0 && res.maxDef == d
 //@ func (*stringOptionalStats).add
+//@   requires s != nil && #vals >= #defs - cntLess(defs, #defs, s.maxDef)
 //@   modifies s
+//@   ghost-entry s.has := s.has || #defs - cntLess(defs, #defs, s.maxDef) > 0
+//@   ensures[C12] s.maxDef == old(s.maxDef)
+//@   ensures[C12] s.nils == old(s.nils) + cntLess(defs, #defs, s.maxDef)
+//@   ensures[C12] forall j in 0..#defs - cntLess(defs, #defs, s.maxDef): s.min <= vals[j] && vals[j] <= s.max
+//@   ensures[C12] old(s.has) ==> s.min <= old(s.min) && s.max >= old(s.max)
 //@ loop (*stringOptionalStats).add#1
-//@   invariant true
+//@   invariant[C12] s.maxDef == old(s.maxDef) && 0 <= rangeindex + 1 && rangeindex + 1 <= #defs
+//@   invariant[C12] s.nils == old(s.nils) + cntLess(defs, rangeindex + 1, s.maxDef)
+//@   invariant[C12] i == rangeindex + 1 - cntLess(defs, rangeindex + 1, s.maxDef)
+//@   invariant[C12] forall j in 0..i: s.min <= vals[j] && vals[j] <= s.max
+//@   invariant[C12] old(s.has) ==> s.min <= old(s.min) && s.max >= old(s.max)
+//@ func (*stringOptionalStats).Min
+//@   requires s != nil
+//@   modifies nothing
+//@   ensures[C12] !s.has ==> ref(res) == 0
+//@   ensures[C12] s.has ==> ref(res) != 0 && #res == #s.min && HA(res) == bytesOf(s.min) && off(res) == 0
+//@ func (*stringOptionalStats).Max
+//@   requires s != nil
+//@   modifies nothing
+//@   ensures[C12] !s.has ==> ref(res) == 0
+//@   ensures[C12] s.has ==> ref(res) != 0 && #res == #s.max && HA(res) == bytesOf(s.max) && off(res) == 0
+//@ func (*stringOptionalStats).NullCount
+//@   requires s != nil
+//@   modifies nothing
+//@   ensures[C12] res != nil && *res == s.nils
+//@ func (*stringOptionalStats).DistinctCount
+//@   modifies nothing
+//@   ensures res == nil
+
+// bools carry no min/max; the null count is exact
+//@ func newBoolStats
+//@   modifies nothing
+//@   ensures res != nil
+//@ func (*boolStats).NullCount
+//@   modifies nothing
+//@   ensures[C12] res == nil
+//@ func (*boolStats).DistinctCount
+//@   modifies nothing
+//@ func (*boolStats).Min
+//@   modifies nothing
+//@   ensures[C12] ref(res) == 0
+//@ func (*boolStats).Max
+//@   modifies nothing
+//@   ensures[C12] ref(res) == 0
+//@ func newBoolOptionalStats
+//@   modifies nothing
+//@   ensures[C12] res != nil && freshsince(res) && res.nils == 0 && res.maxDef == d
 //@ func (*boolOptionalStats).add
+//@   requires b != nil
 //@   modifies b
+//@   ensures[C12] b.maxDef == old(b.maxDef) && b.nils == old(b.nils) + cntLess(defs, #defs, b.maxDef)
 //@ loop (*boolOptionalStats).add#1
-//@   invariant true
+//@   invariant[C12] b.maxDef == old(b.maxDef) && 0 <= rangeindex + 1 && rangeindex + 1 <= #defs && b.nils == old(b.nils) + cntLess(defs, rangeindex + 1, b.maxDef)
+//@ func (*boolOptionalStats).NullCount
+//@   requires b != nil
+//@   modifies nothing
+//@   ensures[C12] res != nil && *res == b.nils
+//@ func (*boolOptionalStats).DistinctCount
+//@   modifies nothing
+//@ func (*boolOptionalStats).Min
+//@   modifies nothing
+//@   ensures[C12] ref(res) == 0
+//@ func (*boolOptionalStats).Max
+//@   modifies nothing
+//@   ensures[C12] ref(res) == 0
 
 // ---- reader (C10: a failed Read/Seek surfaces as an error)
 
